@@ -341,7 +341,15 @@ static void run_one(const Scenario &sc, Reporter &rep, Explore *ex) {
         for (auto &kv : w.wkind) names.push_back(kv.first);
         for (;;) {
             std::vector<std::string> en;
-            for (auto &n : names) if (w.sched.enabled(w.tid[n])) en.push_back(n);
+            for (auto &n : names) if (w.sched.enabled(w.tid[n])) {
+                // the final destructor of the promise object is only legal once nobody uses the object any more
+                if (w.rkind.count(n) && pend_of(w, n, true) == "dtor") {
+                    bool others_done = true;
+                    for (auto &kv : w.rkind) if (kv.second != "dtor" && !w.sched.done(w.tid[kv.first])) others_done = false;
+                    if (!others_done) continue;
+                }
+                en.push_back(n);
+            }
             if (en.empty()) break;
             const std::string &n = en[ex->next() % en.size()];
             std::string act = action_of(pend_of(w, n, w.rkind.count(n) != 0));
